@@ -3,15 +3,33 @@
 import json, os
 ROOT = os.path.dirname(os.path.dirname(os.path.abspath(__file__)))
 
+MIX = 'contract-based deductive verification (own Python AST->SMT VC generator over the real source, z3/cvc5 back ends, sidecar contracts) + bounded contract checking of the real functions against independent spec functions (stand-in, not counted as proved)'
+BND = "bounded contract checking of the real functions against independent spec functions (stand-in for deductive verification: the functions are outside the verifier's reach); nothing is proved"
+NOTE_MIX = "trusted: z3/cvc5, the pyvc VC generator (cross-checked against CPython and by replaying every counter-model), CPython semantics of DESIGN 2.2, assumed library contracts listed in the evidence; bounded part: enumeration bounds stated in the evidence, oracles of bounded/ written from the specification text"
+NOTE_BND = "nothing proved; trusted: the independent oracles in bounded/ (written from sphinx/islaspec.rst), parse_isla as front end of ref_eval, enumeration bounds stated in the evidence"
 CHECKS = {
-    # id: (category, level text, level note, technique, design_ref)
-    "C04": ("other",
-            "Proved for all paths: before/after/inside/direct_child/same_position/different_position against the "
-            "document-order definition, plus lemmas that the definition is a strict order total on prefix-incomparable "
-            "nodes. nth/consecutive/level: bounded exhaustive small-scope check against independent definitions, not proved.",
-            "pyvc VC generator + z3; CPython semantics of DESIGN 2.2; bounded part: enumeration bound stated in evidence",
-            "contract-based deductive verification (own AST->SMT VC generator, z3/cvc5) + bounded contract checking",
-            "6/C04"),
+    "C01": ("other", "Bounded: every tree returned by solve() over a grid of grammars/constraints/settings is checked closed, grammar-valid, in the language and satisfying the constraint by independent oracles. Proved (supporting only): call shape of the elimination chain and fast path, cached open-flag invariant of DerivationTree through __init__/is_open/replace_path, list_del. The elimination chain itself is not proved.", NOTE_MIX, MIX, "6/C01"),
+    "C02": ("other", "Proved on the AST: every dispatch-chain element on the solve path accepts the arguments it is called with (no TypeError instead of Z3 fallback). Bounded: exceptions escaping solve() and stickiness of StopIteration/TimeoutError over call histories.", NOTE_MIX, MIX, "6/C02"),
+    "C03": ("other", "Proved: trie key encoding/decoding incl. round-trip and prefix lemmas, Kleene all/any, call shape of the evaluator chains. Bounded: evaluate()/check() == independent reference semantics on enumerated closed trees (both strategies reached).", NOTE_MIX, MIX, "6/C03"),
+    "C04": ("other", "Proved for all paths: before/after/inside/direct_child/same_position/different_position against the document-order definition, plus lemmas that the definition is a strict order total on prefix-incomparable nodes. nth/consecutive/level: bounded exhaustive small-scope check against independent definitions, not proved.", NOTE_MIX, MIX, "6/C04"),
+    "C05": ("other", "Proved: 17 fast-path constructors (not/and/or/=/</<=/>/>=/-/mod/str.len/str.++/str.at/str.substr/str.to_code) equal the solver's own operators and never raise; call shape of the evaluator chain. Bounded: regex constructors, div/pow/str.to.int, is_valid and evaluate end-to-end against Z3.", NOTE_MIX, MIX, "6/C05"),
+    "C06": ("other", "Proved: all ThreeValuedTruth operations equal their Kleene tables and are monotone in the information order, for sequences of any length. Bounded: verdicts on every open prefix of enumerated closed trees never contradict the completion.", NOTE_MIX, MIX, "6/C06"),
+    "C07": ("exploration", "Bounded only: unparse/parse fix-point, equality and equal verdicts over a generated constraint family.", NOTE_BND, BND, "6/C07"),
+    "C08": ("other", "Bounded: sugared constraints vs an independently written desugaring, on enumerated trees. Proved (supporting): list_set, nth_occ, is_prefix used by XPath elimination.", NOTE_MIX, MIX, "6/C08"),
+    "C09": ("other", "Bounded: rewrites (negation, NNF, DNF, renaming, and/or) on generated n-ary ASTs keep/invert the verdict and never raise. Proved (supporting): call shape of the NNF chain, three-valued De Morgan.", NOTE_MIX, MIX, "6/C09"),
+    "C10": ("exploration", "Bounded, exhaustive per bound: EarleyParser vs an independent recogniser on all strings up to a length over fixed and random grammars.", NOTE_BND, BND, "6/C10"),
+    "C11": ("exploration", "Bounded: per-character escape table exhaustive on 0..0x24F, string and grammar round trips on critical alphabets.", NOTE_BND, BND, "6/C11"),
+    "C12": ("other", "Bounded: post-conditions of expand_tree / mutate over seeds and a choice oracle. Proved (supporting): parent_or_child.", NOTE_MIX, MIX, "6/C12"),
+    "C13": ("other", "Bounded: post-condition of insert_tree for all method subsets. Proved (supporting): is_prefix.", NOTE_MIX, MIX, "6/C13"),
+    "C14": ("exploration", "Bounded only: exact length of create_fixed_length_tree, exact count and no reachable needle after count() completion.", NOTE_BND, BND, "6/C14"),
+    "C15": ("other", "Proved: merge_two_intervals and the fold step of merge_intervals preserve the union and the normal form, with the induction lemmas for the fold. Bounded: numeric_intervals_from_regex vs an independent matcher; compress_concatenation_elements language equality.", NOTE_MIX, MIX, "6/C15"),
+    "C16": ("other", "Proved for all trees/paths: path helpers, list_set/list_del (whole view), nth_occ, trie key encode/decode + lemmas, the cached open-flag representation invariant through __init__, is_open and replace_path. Bounded: operation histories on trees with up to 40 children.", NOTE_MIX, MIX, "6/C16"),
+    "C17": ("other", "Proved on the AST: to_json/__getstate__ assign nothing reachable from their parameters. Bounded: cache/serialise histories, SMT literal pickling, CLI JSON.", NOTE_MIX, MIX, "6/C17"),
+    "C18": ("exploration", "Bounded only: the relations between check/parse/repair/mutate against independent oracles.", NOTE_BND, BND, "6/C18"),
+    "C19": ("exploration", "Bounded only: exit-code/output contract of cli.main over generated file sets (in-process and as subprocess).", NOTE_BND, BND, "6/C19"),
+    "C20": ("other", "Bounded, exhaustive small scope: count, octal_to_decimal, crop/just. Proved (supporting): call shape of the octal_to_dec chain, path helpers used by count.", NOTE_MIX, MIX, "6/C20"),
+    "C21": ("exploration", "Bounded only: solutions for the shipped formalizations pass independent validators.", NOTE_BND, BND, "6/C21"),
+    "C22": ("exploration", "Bounded only: equal solution sequences in pairs of fresh processes with equal hash seed and random seed; static scan for nondeterminism sources.", NOTE_BND, BND, "6/C22"),
 }
 NOT_YET = {}
 ALL = [f"C{i:02d}" for i in range(1, 23)]
